@@ -791,6 +791,192 @@ class DiskShuffleLayer(Spec):
 
 
 # ---------------------------------------------------------------------------------------------
+class TreeReduceLayer(Spec):
+    """TreeReduce._layer: the input keys are combined level by level in consecutive batches of `split_every` until at
+    most `split_every` keys remain (no combine level at all for split_every=False); the final task aggregates the keys of
+    the last level.  Level L has N(L) keys, N(0) = frame.npartitions, N(L+1) = ceil(N(L) / split_every); batch i of level
+    L+1 combines keys i*s .. min((i+1)*s, N(L))-1 of level L in order.  Hence every key of every level is consumed by
+    exactly one task of the next level, every referenced key is an input partition in range or defined in this layer,
+    and the knob split_every only chooses the tree shape."""
+
+    file, qualname, props = "dask_expr/_reductions.py", "TreeReduce._layer", ["C09", "C10", "C02"]
+    case = {"split_every": 2, "combine_kwargs": False}
+    assumptions = [
+        "toolz.partition_all(n, seq) yields consecutive slices of width n (the last one shorter), assumed; the concrete cross-check runs the real function",
+        "Expr.__dask_keys__ of the input frame is [(frame._name, i) for i < frame.npartitions] (assumed callee contract; C09's run-time contract checks it on every corpus graph)",
+        "split_every is an integer >= 2 or False (ApplyConcatApply / TreeReduce callers validate it: 'split_every must be greater than 1 or False'); enumerated values 2, 3, 4, 8, 32 and False, the partition count stays symbolic",
+    ]
+
+    def cases(self):
+        for se in (False, 2, 3, 4, 8, 32):
+            for kw in (False, True):
+                yield {"split_every": se, "combine_kwargs": kw}
+
+    def make_inputs(self, ex, sym, fr):
+        se, kw = self.case["split_every"], self.case["combine_kwargs"]
+        n_in = sym.int("n_in", lo=1)
+        N = fresh_fun("N", z3.IntSort(), z3.IntSort())
+        L = z3.Int("ax_L")
+        sym.pc += [N(0) == n_in]
+        if se is not False:
+            sym.pc += [z3.ForAll([L], z3.Implies(L >= 0, N(L + 1) == (N(L) + se - 1) / se))]
+        frame = _dep("self.frame", n_in)
+        fname = frame.attrs["_name"]
+        own = NameStr("", "self")
+
+        def dask_keys(ex_, fr_):
+            return Seq(n_in, lambda k: (fname, k), "list")
+
+        dask_keys._is_contract_fn = True
+        frame.attrs["__dask_keys__"] = dask_keys
+        s = Obj(
+            "self",
+            {"frame": frame, "_name": own, "split_every": se, "combine": Opaque("self.combine"), "combine_kwargs": ({"k": 1} if kw else {}), "aggregate": Opaque("self.aggregate"), "aggregate_kwargs": Opaque("self.aggregate_kwargs")},
+            cls=("TreeReduce", "Expr"),
+        )
+        self._N, self._own, self._fname = N, own, fname
+        return {"self": s, "n_in": n_in, "_N": lambda l, N=N: N(zint(l)), "_se": se}
+
+    # closed forms: `keys` after _i levels; `new_keys` after _i batches of the current level
+    while_closed = {0: {"keys": lambda ex, fr, env: ex.spec._keys_at(env["_i"])}}
+    acc_closed = {1: {0: lambda ex, fr, env: Seq(env["_i"], lambda k, j=env["j"], own=ex.spec._own: (own, j, k), "list")}}
+    invariants = {0: lambda c, e: c.And(c.eq(e["j"], e["_i"] + 1), e["_N"](e["_i"]) >= 1)}
+
+    def _keys_at(self, lvl):
+        N, own, fname = self._N, self._own, self._fname
+        lvl_ = simp_int_(lvl)
+        if isinstance(lvl_, int) and lvl_ == 0:
+            return Seq(N(z3.IntVal(0)), lambda k: (fname, k), "list")
+        return Seq(N(zint(lvl)), lambda k, lvl=lvl: _ite_key(zint(lvl) == 0, (fname, k), (own, lvl, k)), "list")
+
+    def call(self, ex, fr, name, args, kwargs):
+        if name == "toolz.partition_all":
+            n, seq = args
+            if not isinstance(n, int) or isinstance(n, bool) or n < 1:
+                return NotImplemented
+            sq = ex.seq_of(seq, fr)
+            ln = zint(sq.length)
+            return Seq(z3.simplify((ln + n - 1) / n), lambda i, sq=sq, n=n, ln=ln: Seq(z3.simplify(z3.If(ln - zint(i) * n < n, ln - zint(i) * n, z3.IntVal(n))), lambda k, i=i: sq.get(z3.simplify(zint(i) * n + zint(k))), "tuple"))
+        return NotImplemented
+
+    def ensures(self):
+        def is_(c, a, b):
+            return (c.eq(a, b) is True) if c.symbolic else a == b
+
+        def T_of(c, e):
+            return c.fr.env["_T"] if c.symbolic else e["_T"]
+
+        def level_key(c, e, lvl, k):
+            own, fname = c.attr(e["self"], "_name"), c.attr(e["self"], "frame._name")
+            if c.symbolic:
+                return _ite_key(zint(lvl) == 0, (fname, k), (own, lvl, k))
+            return (fname, k) if lvl == 0 else (own, lvl, k)
+
+        def final(c, e, r):
+            own = c.attr(e["self"], "_name")
+            T = T_of(c, e)
+            se = e["_se"]
+            shape = lambda v: len(v) == 4 and c.And(
+                c.eq(v[0], c.fn("apply")), c.eq(v[1], c.attr(e["self"], "aggregate")), c.eq(v[3], c.attr(e["self"], "aggregate_kwargs")), c.eq(c.len(v[2]), 1),
+                c.eq(c.len(c.at(v[2], 0)), e["_N"](T)),
+                c.forall(0, e["_N"](T), lambda k: c.eq(c.at(c.at(v[2], 0), k), level_key(c, e, T, k))),
+                True if se is False else (e["_N"](T) <= se),
+                (c.eq(T, 0) if se is False else True),
+            )
+            return c.holds_at(r, (own, 0), shape)
+
+        def levels(c, e, r):
+            own, fname = c.attr(e["self"], "_name"), c.attr(e["self"], "frame._name")
+            se = e["_se"]
+
+            def one(k, v):
+                if len(k) == 2:
+                    return c.And(c.eq(k[0], own), c.eq(k[1], 0))
+                if len(k) != 3 or se is False:
+                    return False
+                lvl, i = k[1], k[2]
+                batch = v[1] if len(v) == 2 else c.at(v[2], 0)
+                head = c.eq(v[0], c.attr(e["self"], "combine")) if len(v) == 2 else c.And(len(v) == 4, c.eq(v[0], c.fn("apply")), c.eq(v[1], c.attr(e["self"], "combine")), c.eq(c.len(v[2]), 1), c.eq(v[3], c.attr(e["self"], "combine_kwargs")))
+                prev = e["_N"](lvl - 1)
+                width = c.min(se, prev - i * se)
+                return c.And(
+                    c.eq(k[0], own), lvl >= 1, i >= 0, i < e["_N"](lvl), head,
+                    c.eq(c.len(batch), width), width >= 1,
+                    c.forall(0, width, lambda m: c.And(c.eq(c.at(batch, m), level_key(c, e, lvl - 1, i * se + m)), i * se + m < prev)),
+                )
+
+            return c.forall_entries(r, one)
+
+        def every_level_defined(c, e, r):
+            own = c.attr(e["self"], "_name")
+            T = T_of(c, e)
+            return c.forall(1, T + 1, lambda lvl: c.forall(0, e["_N"](lvl), lambda i: c.defined(r, (own, lvl, i), witness=[lvl - 1, i])))
+
+        return {"final-aggregates-the-last-level": final, "each-batch-combines-consecutive-keys-of-the-previous-level": levels, "K2-every-level-key-defined": every_level_defined}
+
+    def concrete_globals(self):
+        import dask_expr._reductions as m
+
+        return vars(m)
+
+    def concrete_inputs(self):
+        for se in (False, 2, 3, 4, 8):
+            for kw in (False, True):
+                for n in (1, 2, 3, 4, 5, 7, 8, 9, 17, 33):
+                    yield {"n_in": n, "split_every": se, "combine_kwargs": kw}
+
+    def concrete_env(self, inputs):
+        return None
+
+    def run_concrete(self, inputs):
+        from dask_expr._reductions import TreeReduce
+
+        from vf.pyvc.spec import SkipInput
+
+        fr = stub_frame(npartitions=inputs["n_in"])
+        se = inputs["split_every"]
+        obj = TreeReduce(fr, "sum", fr._meta, _tr_combine, _tr_aggregate, ({"k": 1} if inputs["combine_kwargs"] else None), {"z": 2}, se)
+        layer = obj._layer()
+        n = inputs["n_in"]
+        Ns = [n]
+        while se is not False and Ns[-1] > se:
+            Ns.append(-(-Ns[-1] // se))
+        return {"self": obj, "n_in": n, "_N": lambda l, Ns=Ns: Ns[l] if 0 <= l < len(Ns) else -1, "_se": se, "_T": len(Ns) - 1}, layer
+
+    def inputs_from_model(self, model, sz, sym):
+        n = sym.read_int(model, "n_in")
+        if n is None or not (1 <= n <= 2000):
+            return None
+        return {"n_in": n, "split_every": self.case["split_every"], "combine_kwargs": self.case["combine_kwargs"]}
+
+
+def _tr_combine(xs, **kw):
+    return xs
+
+
+def _tr_aggregate(xs, **kw):
+    return xs
+
+
+def simp_int_(v):
+    from vf.pyvc.values import simp_int
+
+    return simp_int(v)
+
+
+def _ite_key(cond, a, b):
+    """A key that is `a` (input partition, 2 components) at level 0 and `b` (own key, 3 components) above."""
+    from vf.pyvc.values import Ite, ite
+
+    cond = z3.simplify(cond)
+    if z3.is_true(cond):
+        return a
+    if z3.is_false(cond):
+        return b
+    return Ite(cond, a, b)
+
+
+# ---------------------------------------------------------------------------------------------
 class TaskShuffleTail(Spec):
     """TaskShuffle._layer, final block (`if npartitions != npartitions_input:`): after the staged shuffle into
     npartitions_input partitions named `name`, stage partition q is regrouped by the final partition number
@@ -1150,4 +1336,4 @@ def _scenarios():
     return out
 
 
-SPECS = [CumulativeFinalizeLayer(), FromGraphLayer(), MoreNSplits(), MoreDivisions(), MoreLayer(), SizeLayer(), SimpleShuffleLayer(), DiskShuffleLayer(), TaskShuffleTail(), BroadcastDep(), BlockwiseArg()] + _scenarios()
+SPECS = [CumulativeFinalizeLayer(), FromGraphLayer(), MoreNSplits(), MoreDivisions(), MoreLayer(), SizeLayer(), SimpleShuffleLayer(), DiskShuffleLayer(), TreeReduceLayer(), TaskShuffleTail(), BroadcastDep(), BlockwiseArg()] + _scenarios()
